@@ -104,6 +104,24 @@ def _module_level_calls(program, target_qual):
     return [(c.module, c.node, c) for c in import_time_registry_calls(program) if c.target == t]
 
 
+def const_str(program, module, expr):
+    """The string an argument expression denotes when it is a literal or a module-level constant bound to one (evaluated, so that
+    `registry.get(_COUNTRY_INDEX)` is the same as `registry.get("country")`); None when it is not a compile-time string."""
+    if isinstance(expr, ast.Constant):
+        return expr.value if isinstance(expr.value, str) else None
+    if not isinstance(expr, (ast.Name, ast.Attribute)):
+        return None
+    from .interp import Interp
+    it = Interp(program)
+    try:
+        outs = [o for o in it.explore(lambda: it.eval(expr, Frame(None, module, {})), max_paths=4) if o.kind != "infeasible"]
+    except Exception:  # CannotEvaluate, PathLimit, AnalysisError: not a constant the model can name
+        return None
+    if len(outs) == 1 and outs[0].kind == "return" and isinstance(outs[0].value, str):
+        return str(outs[0].value)
+    return None
+
+
 def index_specs(facts):
     """Indexes built at import: {index_name: dict(base, key, accumulate, predicate, module, node)}"""
     prog = facts.program
@@ -144,6 +162,20 @@ def build_index_data(facts, spec):
 
 
 def build_iban_table(facts):
+    """The country table after the import-time manipulation.  A failure is remembered and raised again on every later request:
+    the analysis must never continue on a half-built table."""
+    err = getattr(facts, "_iban_error", None)
+    if err is not None:
+        raise AnalysisError(err)
+    try:
+        return _build_iban_table(facts)
+    except AnalysisError as e:
+        facts._iban_error = str(e)
+        facts._iban_working = None
+        raise
+
+
+def _build_iban_table(facts):
     prog = facts.program
     reg = facts.ctx.registry
     table = copy.deepcopy(reg.countries)
@@ -166,6 +198,7 @@ def build_iban_table(facts):
         if it.trace:
             raise AnalysisError(f"{mod.relpath}:{call.lineno}: import-time manipulation is not deterministic on the bundled table")
     table = facts._iban_working
+    facts._iban_working = None
     facts.manipulate_calls = calls
     return table
 
